@@ -63,9 +63,16 @@ def flat_grads(model):
 
 
 def held_tensors(layer):
-    """All tensors reachable from vars(layer) (futures resolved, module excluded), de-duplicated by storage."""
+    """All tensors reachable from vars(layer) (futures resolved, module excluded), de-duplicated by storage.
+    The running factors are recognised by identity with the public a_factor / g_factor properties (reported under the
+    keys '_a_factor' / '_g_factor' whatever the private attribute is called)."""
     seen = {}
     out = {}
+    ident = {}
+    for key, prop in (('_a_factor', 'a_factor'), ('_g_factor', 'g_factor')):
+        t = getattr(layer, prop, None)
+        if isinstance(t, torch.Tensor):
+            ident[(t.untyped_storage().data_ptr(), t.storage_offset(), tuple(t.shape))] = key
     for k, v in vars(layer).items():
         if k in ('module', 'tdc'):
             continue
@@ -76,7 +83,7 @@ def held_tensors(layer):
             if key in seen:
                 continue
             seen[key] = k
-            out[k] = v.nelement() * v.element_size()
+            out[ident.get(key, k)] = v.nelement() * v.element_size()
     return out
 
 
